@@ -115,6 +115,13 @@ def gen_scenario(ctx, k):
             sc.add(up(model.build_msg(ad, 0, t, data)))
         if t % 16 == 15:
             sc.add('quiesce', 'drain intern')
+    # both user queues driven over their bound (128) with nobody reading: the overflow path runs on the receiver thread
+    for i in range(140):
+        sc.add(up(model.build_msg((250, 0, 0), 0, C('MSG_SYS_PONG'), bytes([i]))))
+    sc.add('quiesce')
+    for i in range(140):
+        sc.add(up(model.build_msg((250, 0, 0), 0, C('MSG_SYS_ERROR'), bytes([0x20, i]))))
+    sc.add('quiesce', 'readm', 'reade', 'drain intern')
     if not debug:
         for i in range(30):
             ad, t, data = gen_feedback(rng, m, cfg, nodes)
@@ -219,7 +226,7 @@ def find_cycle(edges):
 def run(ctx):
     ctx.rule = ('cross product: every public bidib_send_* (accepted and spec-rejected arguments), every high-level setter/admin call x {valid, unknown aspect, unknown id, disconnected '
                 'board, out-of-range value, NULL}, every getter for known/unknown/NULL ids, flush, both read functions, bidib_send_sys_reset, all 256 uplink type codes (error and '
-                'non-error variants) on the receiver thread, field sweeps (every value 0..255 of one data byte of valid feedback about configured equipment), in normal and debug mode; starts with every rejected-configuration class; concurrent stress with lock-level '
+                'non-error variants) on the receiver thread, field sweeps (every value 0..255 of one data byte of valid feedback about configured equipment), both user queues driven over their bound, in normal and debug mode; starts with every rejected-configuration class; concurrent stress with lock-level '
                 'perturbation. non-trivial = distinct scenario in which nested lock acquisitions were observed while the library was running')
     ctx.assumptions = ['acyclicity of the OBSERVED nesting order over all runs (edges recorded while the library is running or on library threads)', 'glibc rwlocks are reader-preferring: '
                        'recursive read acquisition is recorded but is not an edge', 'paths that need allocation failure are not driven']
